@@ -49,8 +49,23 @@ impl Content {
         for k in 0..nkeys {
             let mut h = [0u8; 32];
             rng.fill(&mut h);
+            let mut prefix = "default".to_string();
+            // keys that are neighbours on disk: the same two-character prefix directory (first 12 bits of the hash),
+            // or the very same hash under another key prefix (directory names that differ only at their end)
+            if k >= 1 {
+                let h0: [u8; 32] = c.keys[0].hash.as_bytes().try_into().unwrap();
+                match rng.gen_range(0..4) {
+                    0 => h[..2].copy_from_slice(&h0[..2]),
+                    1 => {
+                        h = h0;
+                        prefix = format!("other{k}");
+                    },
+                    2 => prefix = String::new(), // the directory name decodes to exactly the 32 bytes of the hash
+                    _ => {},
+                }
+            }
             let key = Key {
-                prefix: "default".into(),
+                prefix,
                 hash: MerkleHash::from_slice(&h).unwrap(),
             };
             c.by_keystr.insert(key.to_string(), k);
@@ -510,13 +525,24 @@ fn damage_round(c: &Content, root: &Path, rng: &mut impl Rng, junk_names: bool) 
                 hemit("CcDamage", format!("{it},\"kind\":\"bad\""));
             }
         } else if roll < 25 {
+            // (a file that an earlier round left too long is never cut back to the length its name states)
             let b = std::fs::read(&p).unwrap();
-            let n = rng.gen_range(0..b.len());
-            std::fs::write(&p, &b[..n]).unwrap();
-            hemit("CcDamage", format!("{it},\"kind\":\"badlen\""));
+            let canon = c.file(k, s, e).0.len();
+            let mut n = rng.gen_range(0..b.len().max(1));
+            if n == canon {
+                n = n.saturating_sub(1);
+            }
+            if n != canon && n < b.len() {
+                std::fs::write(&p, &b[..n]).unwrap();
+                hemit("CcDamage", format!("{it},\"kind\":\"badlen\""));
+            }
         } else if roll < 32 {
             let mut b = std::fs::read(&p).unwrap();
-            let extra = rng.gen_range(1..9);
+            let canon = c.file(k, s, e).0.len();
+            let mut extra = rng.gen_range(1..9);
+            if b.len() + extra == canon {
+                extra += 1;
+            }
             b.extend(std::iter::repeat(0x5a).take(extra));
             std::fs::write(&p, &b).unwrap();
             hemit("CcDamage", format!("{it},\"kind\":\"badlen\""));
@@ -749,6 +775,15 @@ fn run_renames(ctl: &Arc<Ctl>, c: &Arc<Content>, cap: u64, out: &mut TraceOut) -
         }
         variants.push((i, (*k + 1) % c.keys.len(), *s, *e)); // moved into another key's directory under its own name
     }
+    // forged items: a file under a name that matches its own length and checksum (so the name check passes) whose
+    // chunk index is not one any put writes - offsets that decrease at each position, a first offset that is not 0, a
+    // last offset that is not the data length, a wrong count.  Coded as (item, key dir, u32::MAX, forgery number).
+    let nforged = 3 * nch as usize + 6;
+    for (i, (k, _, _)) in base.iter().enumerate() {
+        for fv in 0..nforged {
+            variants.push((i, *k, u32::MAX, fv as u32));
+        }
+    }
     let mut runs = 0;
     for (vi, (i, kdir, cs, ce)) in variants.iter().enumerate() {
         let dir = tempfile::tempdir()?;
@@ -765,10 +800,57 @@ fn run_renames(ctl: &Arc<Ctl>, c: &Arc<Content>, cap: u64, out: &mut TraceOut) -
         let (k, s, e) = base[*i];
         let from = c.item_path(dir.path(), k, s, e);
         let (_, len, crc) = c.file(k, s, e);
-        let to = c.key_dir(dir.path(), *kdir).join(Content::item_name(*cs, *ce, len, crc));
-        let _ = std::fs::create_dir_all(to.parent().unwrap());
-        if std::fs::rename(&from, &to).is_err() {
-            continue;
+        if *cs == u32::MAX {
+            // rewrite the item's file with a forged chunk index and give it the name that matches the new bytes
+            let (idx, d) = c.data(k, s, e);
+            let mut idx: Vec<u32> = idx;
+            let mut count = idx.len() as u32;
+            let fv = *ce as usize;
+            let n = idx.len(); // number of offsets = chunks + 1
+            let last = n - 1;
+            if fv < 3 * nch as usize {
+                let j = 1 + (fv / 3) % last.max(1); // position whose offset is made smaller than its predecessor's / larger than its successor's
+                match fv % 3 {
+                    0 => idx[j] = idx[j - 1].saturating_sub(1),
+                    1 if j < last => idx[j] = idx[j + 1] + 1,
+                    1 => idx[j] = idx[j - 1].saturating_sub(7),
+                    _ => {
+                        // two offsets exchanged
+                        let a = idx[j];
+                        idx[j] = idx[j - 1];
+                        idx[j - 1] = a;
+                    },
+                }
+            } else {
+                match fv - 3 * nch as usize {
+                    0 => idx[0] = 1,
+                    1 => idx[last] += 1,
+                    2 => idx[last] = idx[last].saturating_sub(1),
+                    3 => count += 1,
+                    4 => count = count.saturating_sub(1),
+                    _ => idx[last] = u32::MAX,
+                }
+            }
+            let mut f = vec![];
+            f.extend_from_slice(&count.to_le_bytes());
+            for o in &idx {
+                f.extend_from_slice(&o.to_le_bytes());
+            }
+            f.extend_from_slice(&d);
+            if f == c.file(k, s, e).0 {
+                continue; // the forgery is the genuine file (an offset that was already at its bound)
+            }
+            let to = c.key_dir(dir.path(), k).join(Content::item_name(s, e, f.len() as u64, crc32fast::hash(&f)));
+            let _ = std::fs::remove_file(&from);
+            if std::fs::write(&to, &f).is_err() {
+                continue;
+            }
+        } else {
+            let to = c.key_dir(dir.path(), *kdir).join(Content::item_name(*cs, *ce, len, crc));
+            let _ = std::fs::create_dir_all(to.parent().unwrap());
+            if std::fs::rename(&from, &to).is_err() {
+                continue;
+            }
         }
         let mut gets = vec![];
         let mut reopen = "ok";
@@ -799,7 +881,7 @@ fn run_renames(ctl: &Arc<Ctl>, c: &Arc<Content>, cap: u64, out: &mut TraceOut) -
             Err(_) => reopen = "panic",
         }
         let _ = ctl.take_events();
-        let ev = vec![json!({"ev": "CcRenamed", "actor": "t1", "variant": vi, "item": [c.names[k], s, e], "to_key": c.names[*kdir], "claims": [cs, ce],
+        let ev = vec![json!({"ev": "CcRenamed", "actor": "t1", "variant": vi, "item": [c.names[k], s, e], "to_key": c.names[*kdir], "claims": if *cs == u32::MAX { json!(["forged", ce]) } else { json!([cs, ce]) },
                              "reopen": reopen, "gets": gets}).to_string()];
         out.run(&ev)?;
         runs += 1;
